@@ -22,7 +22,8 @@ first = {'C01-a':'first','C02-a':'first','C03-a':'first','C04-a':'after (engine 
  'C01-d':'after (read: the empty-batch error only for an empty array)','C03-d':'after (numToDo: notes counted against the spec cntNotes)','C04-d':'first',
  'C09-d':'after (Callback/Call: once the slot settled the outcome is the reply\'s alone)','C11-d':'after (direct.Recv put under contract; receives made visible to contracts)',
  'C15-d':'first','C16-d':'first','C20-d':'first',
- 'C03-e':'first','C16-e':'first','C06-e':'first'}
+ 'C03-e':'first','C16-e':'first','C06-e':'first','C12-e':'first','C14-e':'first',
+ 'C10-e':'after (by C05 only with the lists as they stood that morning; the tagged-clause audit had put the Client functions under C10 an hour before this seed arrived)'}
 rows=[]
 for d in sorted(glob.glob('/verif/seeded/*/')):
     sid=os.path.basename(d.rstrip('/'))
